@@ -22,14 +22,39 @@ ASSUMPTIONS = ['MySQL / PostgreSQL / Oracle regex and LIKE-escape semantics and 
                'SQL LIKE is modelled by its lower bound (case-sensitive substring); its extra candidates (ASCII case '
                'folding, % and _ in the value) never matter by superset_ok']
 BACKENDS = ['sqlite', 'sqlite-regex', 'redis-json', 'redis-pickle', 'mongo', 'mongo40', 'enfold:sqlite', 'enfold:mongo',
-            'observable:sqlite', 'observable:memory']
+            'observable:sqlite', 'observable:memory', 'enfold-late:sqlite', 'enfold-late-pop:memory']
+
+
+def load(kind, objs):
+    """a storage of the given kind holding `objs`.  'enfold-late:X' is an enfolding cache created with populate=False
+    over an already filled backend and only read from (look-ups by uid, listings) before it is searched;
+    'enfold-late-pop:X' is the same followed by the documented manual populate()"""
+    if kind.startswith('enfold-late'):
+        from vakt.cache import EnfoldCache
+        base = stores.make_base(kind.split(':', 1)[1])
+        for o in objs:
+            base.add(o)
+        ec = EnfoldCache(base, cache=stores.make_base('memory'), populate=False)
+        if objs:
+            ec.get(objs[0].uid)
+            ec.get(objs[-1].uid)
+        ec.get('no-such-uid')
+        list(ec.get_all(2, 0))
+        list(ec.retrieve_all())
+        if kind.startswith('enfold-late-pop'):
+            ec.populate()
+        return ec
+    st = stores.make(kind)
+    for o in objs:
+        st.add(o)
+    return st
 TRICKY = ['%', '_', 'a%', 'x_y', '100%', 'a\\b', 'C:\\dir\\f', 'a+b', 'a.b', 'a(b', 'a[b', 'a)b', 'docs/r(final).pdf',
           'Admin', 'admin', 'ADMIN', 'Ünï', 'a|b', 'a*', '^a$', 'get', '<get>', 'a b', "o'neil", '"q"', 'a\\']
 
 
 def model_backend(kind, k):
     base = kind.split(':')[-1]
-    if base in ('memory', 'redis-json', 'redis-pickle') or kind.startswith('enfold:'):
+    if base in ('memory', 'redis-json', 'redis-pickle') or kind.startswith('enfold:') or kind.startswith('enfold-late-pop'):
         return 'all'                      # the enfolding cache answers from its in-memory cache store
     if k is None:
         return 'all'
@@ -112,12 +137,19 @@ def run(ctx):
         desc0 = {'checker': k, 'policies': [repr(p) for p in case['policies']], 'inquiry': repr(case['inquiry']),
                  'matching_uids': match_uids, 'memory_decision': ref_dec}
         for kind in BACKENDS:
-            st = stores.make(kind)
             try:
-                for o in objs:
-                    st.add(o)
+                st = load(kind, objs)
             except (InvalidPatternError, re.error):
                 out.count('rejected-by-backend')
+                continue
+            except Exception as e:
+                if not kind.startswith('enfold-late'):
+                    raise
+                f = Failure('oracle', dict(desc0, backend=kind), repr(e), None, 'reading through an enfolding cache created '
+                            'with populate=False and then populating it (the documented manual population) raised',
+                            'Vakt.C07.candidate_sound')
+                f.signature = 'late-populate-raised'
+                out.failures.append(f)
                 continue
             out.evaluations += 1
             out.count('backend:' + kind)
@@ -207,9 +239,7 @@ def replay(ctx, rp):
     case = {'k': c['checker'] or 'KX', 'policies': [eval(p) for p in c['policies']], 'inquiry': eval(c['inquiry'])}
     objs, inq = polcase.build_case(case)
     k = c['checker']
-    st = stores.make(c['backend'])
-    for o in objs:
-        st.add(o)
+    st = load(c['backend'], objs)
     ref = stores.make('memory')
     for o in objs:
         ref.add(o)
